@@ -43,7 +43,8 @@ def T0 : Nat := 1000000000
 abbrev userChunk : Nat := NV.Gen.C09.userChunk
 /-- look_for_objects_to_swap runs every `sweepPeriod` seconds -/
 abbrev sweepPeriod : Nat := NV.Gen.C09.sweepPeriod
-/-- ResetDuration of the verification configuration (upper bound of next_reset - now) -/
+/-- ResetDuration of the verification configuration: next_reset = now + D/2 + rand () % (D/2); the configuration
+    uses D = 2, so the random term is `rand () % 1 = 0` and next_reset = now + 1 exactly -/
 abbrev resetDuration : Nat := NV.Gen.C09.resetDuration
 
 inductive Mode | net | console
@@ -373,7 +374,12 @@ def runOps (rh : HookFn) (self : Oid) : List Op → W → R
     | .hb n =>
       let w := emit w (.xHb self n)
       runOps rh self rest (setHeartBeat w self n)
-    | .w s => runOps rh self rest (addOut w self (s ++ "|"))
+    | .w s =>
+      -- tell_object(): add_message for a user; for a plain object the catch_tell apply touches it (O_RESET_STATE off)
+      let w := match self with
+        | .obj k => { w with resetState := fun x => if x = k then false else w.resetState x }
+        | _ => w
+      runOps rh self rest (addOut w self (s ++ "|"))
     | .meh m => runOps rh self rest { w with meh := m }
 
 def kindEv (o : Oid) : Kind → Ev
@@ -608,7 +614,7 @@ def sweepResets (rh : HookFn) : List Nat → W → W
     if w.dead o then sweepResets rh ks w else
     if w.nextReset k < w.now && !w.resetState k then
       -- reset_object(): next_reset first, then apply (clears O_RESET_STATE), O_RESET_STATE set on return
-      let w := { w with nextReset := fun x => if x = k then w.now + resetDuration else w.nextReset x }
+      let w := { w with nextReset := fun x => if x = k then w.now + resetDuration / 2 else w.nextReset x }
       let w := emit w (.tReset o)
       let (w, raised) := rh w o .reset
       let w := if raised then w
